@@ -11,5 +11,6 @@ CONSTANTS
 INVARIANT PoolIsParents
 INVARIANT LeadersExact
 INVARIANT GroupedExact
-INVARIANT ReturnExact
+PROPERTY ReturnExactAlways
+VIEW StateView
 CHECK_DEADLOCK FALSE
